@@ -793,9 +793,23 @@ struct C10 : World {
     auto page = [&] { return (int64_t)((pgoff + (int)r.below((uint64_t)npg)) % NPG); };
     auto sub = [&] { return (int64_t)((suboff + (int)r.below((uint64_t)nsub)) % NSUB); };
     auto fn = [&] { return (int64_t)((fnoff + (int)r.below((uint64_t)nfn)) % NFN); };
+    // "exactly full" flavour (1 run in 5): plain pages only, a limit of exactly one / two / three of them, two page numbers
+    // (half of the time the two that share a hash chain), few subpages, many wildcard look-ups: every store into the
+    // full cache takes one victim of the same size (block reused in place) and the wildcard look-up that follows
+    // must return the version just stored, whatever the victim's place in its hash chain was
+    bool exact = r.chance(1, 5);
+    if (exact) {
+      static const int LX[] = {1, 11, 12};
+      p.knobs["limit_idx"] = LX[r.below(3)];
+      p.knobs["flavour_exact"] = 1;
+      npg = 2; if (r.chance(1, 2)) pgoff = 0;
+      nfn = 1; fnoff = 0; suboff = 0; nsub = 2 + (int)r.below(4);
+    }
+    auto gsub = [&] { return exact && r.chance(1, 2) ? (int64_t)11 : sub(); };
     int nseeds = 1 + (int)r.below(5);  // few distinct contents: identical re-stores happen
     int w_put = 4 + (int)r.below(8), w_get = 2 + (int)r.below(8), w_unref = 2 + (int)r.below(6), w_ref = (int)r.below(3), w_isc = (int)r.below(4),
         w_his = (int)r.below(3), w_pt = (int)r.below(3), w_fe = (int)r.below(4), w_sw = (int)r.below(3), w_na = (int)r.below(3), w_nr = (int)r.below(2), w_nu = (int)r.below(3);
+    if (exact) { w_put += 6; w_get += 6; w_sw = w_sw ? 1 : 0; w_na = w_nu = w_nr = 0; }
     int wsum = w_put + w_get + w_unref + w_ref + w_isc + w_his + w_pt + w_fe + w_sw + w_na + w_nr + w_nu;
     int nops = (thorough ? 20 : 8) + (int)r.below(thorough ? 280 : 110);
     int holder_share = (int)r.below(50);  // percent of ops issued by the holder
@@ -804,7 +818,7 @@ struct C10 : World {
       if ((int)r.below(100) < holder_share) {
         o.task = 1;
         int x = (int)r.below(20);
-        if (x < 10) { o.kind = "get"; o.a = {(int64_t)r.below(3), page(), sub(), (int64_t)r.below(NMASK), 1}; }
+        if (x < 10) { o.kind = "get"; o.a = {(int64_t)r.below(3), page(), gsub(), (int64_t)r.below(NMASK), 1}; }
         else if (x < 17) { o.kind = "unref"; o.a = {(int64_t)r.below(8)}; }
         else if (x < 19) { o.kind = "ref"; o.a = {(int64_t)r.below(8)}; }
         else { o.kind = "put"; o.a = {(int64_t)r.below(3), page(), sub(), fn(), (int64_t)r.below((uint64_t)nseeds), 1}; }
@@ -812,7 +826,7 @@ struct C10 : World {
         o.task = 0;
         int x = (int)r.below((uint64_t)wsum);
         if ((x -= w_put) < 0) { o.kind = "put"; o.a = {(int64_t)r.below(3), page(), sub(), fn(), (int64_t)r.below((uint64_t)nseeds), (int64_t)r.chance(1, 3)}; }
-        else if ((x -= w_get) < 0) { o.kind = "get"; o.a = {(int64_t)r.below(3), page(), sub(), (int64_t)r.below(NMASK), (int64_t)r.chance(1, 3)}; }
+        else if ((x -= w_get) < 0) { o.kind = "get"; o.a = {(int64_t)r.below(3), page(), gsub(), (int64_t)r.below(NMASK), (int64_t)r.chance(1, 3)}; }
         else if ((x -= w_unref) < 0) { o.kind = "unref"; o.a = {(int64_t)r.below(8)}; }
         else if ((x -= w_ref) < 0) { o.kind = "ref"; o.a = {(int64_t)r.below(8)}; }
         else if ((x -= w_isc) < 0) { o.kind = "iscached"; o.a = {page(), sub()}; }
@@ -856,6 +870,7 @@ struct C10 : World {
     if (rc == 2) ctx.fail("harness:budget", "scheduler budget exhausted");
     ctx.state(sched.interleaving_hash());
     if (!ctx.failed) s.close();
+    if (plan.knob("flavour_exact", 0)) ctx.count("runs_exactly_full_flavour");
     ctx.nontrivial = s.puts_ok >= 3 && s.hits >= 1;
   }
 };
